@@ -6,6 +6,7 @@ A *shape* is plain data (nested lists) so that cases can be written to replay fi
   ['decimal'] ['complex'] ['uuid'] ['timedelta'] ['bytes'] ['range'] ['ppath']
   ['opt',T] ['union',T1..Tk] ['list',T] ['seq',T] ['dict',T] ['dictint',T] ['tuple',T1..Tk] ['tuplevar',T] ['set',leaf]
   ['dc', tag, [[field, T, has_default, default_input], ...]]
+  ['td', tag, [[key, T, not_required, None], ...]]          TypedDict (total, keys marked NotRequired where not_required)
 Input values are JSON-like Python data (what a config file would hold): lists for tuples and sets, member names for enums.
 Nothing in the oracles looks at how jsonargparse sees a type.
 """
@@ -129,7 +130,7 @@ FLOAT = st.one_of(st.sampled_from([0.0, -0.0, 1.0, -1.0, 1e3, 1e-7, 1e16, 1e22, 
 @_memo
 def shapes(depth, leaves=None, containers=None, dataclass=True):
     leaves = leaves or SCALAR_LEAVES
-    containers = containers or ["opt", "union", "list", "seq", "dict", "dictint", "tuple", "tuplevar", "set"] + (["dc"] if dataclass else [])
+    containers = containers or ["opt", "union", "list", "seq", "dict", "dictint", "tuple", "tuplevar", "set", "td"] + (["dc"] if dataclass else [])
     leaf = st.sampled_from(leaves).map(leaf_shape)
     if depth <= 0:
         return leaf
@@ -146,6 +147,7 @@ def shapes(depth, leaves=None, containers=None, dataclass=True):
         "tuplevar": sub.map(lambda s: ["tuplevar", s]),
         "set": st.sampled_from(hashable).map(lambda k: ["set", leaf_shape(k)]),
         "dc": dc_shapes(st.deferred(lambda: shapes(max(depth - 2, 0), leaves, [c for c in containers if c != "dc"], False))),
+        "td": td_shapes(sub),
     }
     return st.one_of(leaf, *[opts[c] for c in containers])
 
@@ -168,6 +170,12 @@ def dc_shapes(sub):
         return ["dc", "D", fields]
 
     return st.composite(lambda draw: build(draw))()
+
+
+def td_shapes(sub):
+    """TypedDict shapes: 1-3 keys, each required or NotRequired"""
+    return st.lists(st.tuples(st.sampled_from(FIELD_NAMES), sub, st.booleans()), min_size=1, max_size=3, unique_by=lambda t: t[0]).map(
+        lambda fs: ["td", "T", [[n, t, opt, None] for n, t, opt in fs]])
 
 
 _TYPE_CACHE: dict = {}
@@ -240,7 +248,7 @@ def to_type(shape):
     if key in _TYPE_CACHE:
         return _TYPE_CACHE[key]
     t = _to_type(shape, key)
-    if shape[0] not in ("dc", "cls") and _pick(key, 8, "ann") == 1:
+    if shape[0] not in ("dc", "cls", "td") and _pick(key, 8, "ann") == 1:
         import typing as ty
 
         t = ty.Annotated[t, "vf-meta"]
@@ -282,6 +290,8 @@ def _to_type(shape, key):
         t = _spelled(k, key, [to_type(x) for x in shape[1:]])
     elif k == "dc":
         t = make_dc(shape)
+    elif k == "td":
+        t = make_td(shape)
     elif k == "cls":
         from . import fixtures
 
@@ -311,6 +321,13 @@ def make_dc(shape):
     cls.__module__ = __name__
     globals()[cls.__name__] = cls
     return cls
+
+
+def make_td(shape):
+    import typing as ty
+
+    _DC_COUNT[0] += 1
+    return ty.TypedDict(f"VfTD{_DC_COUNT[0]}", {name: (ty.NotRequired[to_type(t)] if opt else to_type(t)) for name, t, opt, _d in shape[2]})
 
 
 def _copy(v):
@@ -380,6 +397,8 @@ def conforming(shape, special=False, for_default=False):
         return st.lists(rec(shape[1]), max_size=3, unique_by=lambda v: (type(v).__name__, v) if not isinstance(v, bool) else ("int", int(v))).filter(_set_safe)
     if k == "cls":
         return class_specs(shape[1], special)
+    if k == "td":
+        return st.fixed_dictionaries({n: rec(t) for n, t, opt, _d in shape[2] if not opt}, optional={n: rec(t) for n, t, opt, _d in shape[2] if opt})
     if k == "dc":
         def build(draw):
             out = {}
@@ -469,6 +488,9 @@ def expected(shape, v):
         return tuple(expected(t, x) for t, x in zip(shape[1:], v))
     if k == "set":
         return {expected(shape[1], x) for x in v}
+    if k == "td":
+        types = {f[0]: f[1] for f in shape[2]}
+        return {a: expected(types[a], b) for a, b in v.items()}
     if k == "dc":
         ns = Namespace()
         for name, t, has_default, dflt in shape[2]:
@@ -489,7 +511,7 @@ def _parse_timedelta(s):
 
 def has_union(shape):
     return shape[0] == "union" or any(isinstance(x, list) and x and isinstance(x[0], str) and has_union(x) for x in shape[1:] if isinstance(x, list)) \
-        or (shape[0] == "dc" and any(has_union(f[1]) for f in shape[2]))
+        or (shape[0] in ("dc", "td") and any(has_union(f[1]) for f in shape[2]))
 
 
 def conforms(shape, v):
@@ -549,6 +571,10 @@ def conforms(shape, v):
         return type(v) is set and all(conforms(shape[1], x) for x in v)
     if k == "cls":
         return type(v) is Namespace and isinstance(v.get("class_path"), str) and (v.get("init_args") is None or type(v.get("init_args")) is Namespace)
+    if k == "td":
+        names = {f[0]: f for f in shape[2]}
+        return (type(v) is dict and set(v) <= set(names) and all(f[2] or f[0] in v for f in shape[2])
+                and all(conforms(names[a][1], b) for a, b in v.items()))
     if k == "dc":
         if type(v) is not Namespace:
             return False
@@ -628,6 +654,18 @@ def near_miss(shape):
             if inner is not None:
                 parts.append(st.tuples(good, inner).map(lambda t, i=i: (t[0][:i] + [t[1][0]] + t[0][i + 1:], f"tuple[{i}]:{t[1][1]}")))
         return st.one_of(*parts)
+    if k == "td":
+        parts = [st.sampled_from([5, "abc", [1]]).map(lambda w: (w, f"typeddict<-{w!r}"))]
+        good = conforming(shape)
+        parts.append(good.map(lambda g: ({**g, "zq9": 1}, "typeddict unknown key zq9")))
+        req = [f[0] for f in shape[2] if not f[2]]
+        if req:
+            parts.append(st.tuples(good, st.sampled_from(req)).map(lambda t: ({a: b for a, b in t[0].items() if a != t[1]}, f"typeddict without required key {t[1]}")))
+        for name, t, _opt, _d in shape[2]:
+            inner = near_miss(t)
+            if inner is not None:
+                parts.append(st.tuples(good, inner).map(lambda tt, name=name: ({**tt[0], name: tt[1][0]}, f"td.{name}:{tt[1][1]}")))
+        return st.one_of(*parts)
     if k == "dc":
         parts = [st.sampled_from([5, "abc", [1]]).map(lambda w: (w, f"dataclass<-{w!r}"))]
         good = conforming(shape)
@@ -658,7 +696,7 @@ def _maybe_accepts(shape, v):
     if isinstance(v, list):
         return k in ("list", "seq", "tuple", "tuplevar", "set")
     if isinstance(v, dict):
-        return k in ("dict", "dictint", "dc")
+        return k in ("dict", "dictint", "dc", "td")
     return True
 
 
@@ -721,9 +759,9 @@ def diff(a, b, path="", limit=20):
 
 def _leaf_positions(shape, path=()):
     k = shape[0]
-    if k == "dc":
+    if k in ("dc", "td"):
         for i, f in enumerate(shape[2]):
-            if not f[2]:  # a field default would no longer fit the replaced type
+            if k == "td" or not f[2]:  # a field default would no longer fit the replaced type
                 yield from _leaf_positions(f[1], path + (2, i, 1))
         return
     subs = [(i, x) for i, x in enumerate(shape) if i > 0 and isinstance(x, list) and x and isinstance(x[0], str)]
@@ -766,7 +804,7 @@ def mutations_of(shape):
 
 def depth_of(shape):
     subs = [x for x in shape[1:] if isinstance(x, list) and x and isinstance(x[0], str)]
-    if shape[0] == "dc":
+    if shape[0] in ("dc", "td"):
         subs = [f[1] for f in shape[2]]
     return 1 + max([depth_of(s) for s in subs], default=0)
 
@@ -774,7 +812,7 @@ def depth_of(shape):
 def kinds_in(shape):
     out = {shape[0]}
     subs = [x for x in shape[1:] if isinstance(x, list) and x and isinstance(x[0], str)]
-    if shape[0] == "dc":
+    if shape[0] in ("dc", "td"):
         subs = [f[1] for f in shape[2]]
     for s in subs:
         out |= kinds_in(s)
